@@ -82,10 +82,16 @@ def check_class(canon, forms, label, hows=('ctor',)):
             try:
                 v = construct(form, how)
                 got = reported(v)
-                rend = str(v)
+                # rendering of the value as it is, its flags, and the rendering once more text with another setting follows
+                # (only then does it matter whether the optimiser takes the setting for parsable)
+                w_ = AnsiString(v) + AnsiString('yz', AnsiSetting('3'))
+                w_.apply_formatting(AnsiSetting('9'), 0, 2)
+                rend = (str(v), v.is_formatting_valid(), v.is_formatting_parsable(), str(w_), w_.to_str(optimize=False))
             except Exception as e:  # noqa
                 bad.append(('spelling-raises', '%s: %r via %s raised %s: %s' % (label, form, how, type(e).__name__, e)))
                 continue
+            if canon is None:
+                canon = got             # no reference value: the forms only have to agree with each other
             if got != canon:
                 bad.append(('spelling-codes', '%s: %r via %s reports %r, expected %r' % (label, form, how, got, canon)))
             elif how == 'ctor':
@@ -315,7 +321,7 @@ def do_case(case):
         return check_class(canon, forms, '%srgb(%#x)' % (pfx, v), hows=('ctor',)), len(forms)
     if k == 'c256':
         pfx, n = case['pfx'], case['n']
-        canon = canon_256(pfx, n)
+        canon = canon_256(pfx, n) if n <= 255 else None      # out of range: the statement is silent, the spellings must still agree
         forms = []
         for word in ('color256', 'colour256'):
             for f in num_forms(n):
@@ -324,6 +330,12 @@ def do_case(case):
             forms.append(getattr(AnsiFormat, (pfx or 'fg_') + word)(n))
         if pfx == '':
             forms.append(AnsiFormat.color256(n))
+        # the same codes as integers and as a ';'-separated string
+        intro_, pre_ = PFX[pfx]
+        ints_ = ([int(pre_)] if pre_ else []) + [int(intro_), 5, n]
+        forms.append(list(ints_))
+        forms.append(';'.join(str(x) for x in ints_))
+        forms.append(('ARGS',) + tuple(ints_))
         # the generic helpers with an explicit component (positional and by keyword), both spellings
         from ..env import lib_format
         comp = {'': 'FOREGROUND', 'fg_': 'FOREGROUND', 'bg_': 'BACKGROUND', 'ul_': 'UNDERLINE', 'dul_': 'DOUBLE_UNDERLINE'}[pfx]
@@ -382,7 +394,7 @@ def run_task(task, acc):
             cases.append({'kind': 'rgb3', 'pfx': pfx, 'r': r, 'g': g, 'b': b})
         for v in (0, 1, 255, 256, 0x010203, 0xFF00FF, 0xFFFFFF, 0x00FF00, 0x800000):
             cases.append({'kind': 'rgb1', 'pfx': pfx, 'v': v})
-        for n in (0, 1, 16, 127, 214, 255):
+        for n in (0, 1, 16, 127, 214, 255, 256, 300):
             cases.append({'kind': 'c256', 'pfx': pfx, 'n': n})
         for r, g, b in itertools.product((-5, 0, 255, 256, 10 ** 6), repeat=3):
             cases.append({'kind': 'helper', 'pfx': pfx, 'r': r, 'g': g, 'b': b})
